@@ -11,7 +11,7 @@ from ..common import V, samples_of, seed_offset
 from ..refmodels import dak
 
 K1_SIG = "C07:K1-compressibility-follows-published-coefficient-density-follows-A1*A2/Tr"
-P_GAS = [15, 50, 100, 300, 600, 1000, 2000, 3000, 5000, 8000, 11000, 14000]
+P_GAS = [5, 10, 14.7, 15, 50, 100, 300, 600, 1000, 2000, 3000, 5000, 8000, 11000, 14000]
 REL_IDENT = 1e-12   # relations between two library functions
 REL_CONST = 1e-4    # identities that carry a physical constant (M_air, R, 62.37 ...)
 REL_DERIV = 1e-4    # compressibility against a Richardson-extrapolated central difference
@@ -95,7 +95,7 @@ def eval_oil(case):
         return {"violations": [], "outcome": "bubble-point<=50", "evals": 0}
     so = 141.5 / (131.5 + api)
     viol, vals = [], []
-    for f in case["fractions"]:
+    for f in list(case["fractions"]) + [q / pb for q in case.get("absolute", [])]:
         p = f * pb
         rho = oil.density_Standing(T, p, api, g, gor)
         bo = oil.b_o_Standing(T, p, api, g, gor)
@@ -177,7 +177,7 @@ def cases(tier, seed):
     apis = [12.0, 35.0, 55.0] + ([20.0, 45.0] if thorough else [])
     for T, api, g, gor in itertools.product([80.0, 200.0, 350.0], apis, [0.56, 0.8, 1.3], [20.0, 650.0, 2500.0]):
         out.append({"phase": "oil", "T": T, "api": api, "gravity": g, "gor": gor,
-                    "fractions": [0.1, 0.5, 0.9, 1.0, 1.5, 2.5]})
+                    "fractions": [0.1, 0.5, 0.9, 1.0, 1.5, 2.5], "absolute": [5.0, 14.7, 15.0]})
     for T in ([150.0, 300.0] + ([80.0, 400.0] if thorough else [])):
         out.append({"phase": "history", "T": T, "pressures": [500.0, 3000.0, 9000.0],
                     "gases": [[0.6, [0.0, 0.0, 0.0], "dry gas"], [0.8, [0.03, 0.012, 0.018], "wet gas"],
